@@ -48,7 +48,7 @@ class Patcher:
         node = tree.xpath(action.node, namespaces=self.nsmap)[0]
         # Both paths refer to the tree as it is before the move, so the
         # target must be looked up before the node is detached.
-        target = tree.xpath(action.target)[0]
+        target = tree.xpath(action.target, namespaces=self.nsmap)[0]
         node.getparent().remove(node)
         target.insert(action.position, node)
 
@@ -81,7 +81,7 @@ class Patcher:
         del node.attrib[action.oldname]
 
     def _handle_InsertComment(self, action, tree):
-        target = tree.xpath(action.target)[0]
+        target = tree.xpath(action.target, namespaces=self.nsmap)[0]
         target.insert(action.position, etree.Comment(action.text))
 
     def _handle_InsertNamespace(self, action, tree):
